@@ -202,13 +202,26 @@ def main():
     if pid not in CHECKS:
         print("no check registered for", pid)
         return 2
+    replay = None
+    want_sig = None
+    if "--replay" in sys.argv:
+        # a replay file records the seed, tier and signature of a violation: the check is re-run with the
+        # same seed and tier (all generation is seeded) and reports whether that signature occurs again
+        replay = sys.argv[sys.argv.index("--replay") + 1]
+        try:
+            rf = json.load(open(replay))
+            seed, tier, want_sig = int(rf.get("seed", seed)), rf.get("tier", tier), rf.get("sig")
+        except Exception as ex:
+            print("INFRA: cannot read replay file: %s" % ex)
+            return 2
     ctx = Ctx(pid, tier, seed)
     try:
-        replay = None
-        if "--replay" in sys.argv:
-            replay = sys.argv[sys.argv.index("--replay") + 1]
-        CHECKS[pid](ctx, replay) if replay else CHECKS[pid](ctx, None)
-        return finish(ctx)
+        CHECKS[pid](ctx, replay)
+        rc = finish(ctx)
+        if want_sig is not None:
+            again = any(sig == want_sig for sig, _, _ in ctx.violations)
+            print("REPLAY %s: signature %s %s with seed=%d tier=%s" % (replay, want_sig, "REPRODUCED" if again else "not reproduced", seed, tier))
+        return rc
     except Infra as ex:
         print("INFRA: %s" % ex)
         return 2
@@ -271,3 +284,55 @@ def absorb_rejections(ctx, rej, family, trace_file, only=None):
             dst = trace_file
         ctx.violations.append((sig, len(items), {"sig": sig, "detail": "%s rejected at line %d: %s | event %s" % (family, items[0][0], items[0][1], items[0][2][:300]),
                                                    "case": {"trace": dst, "line_in_full_trace": items[0][0]}}))
+
+
+def split_by_conn(src, dst):
+    """Regroup a global-order hook trace per connection (order within a connection kept), TraceReset between."""
+    by, order = {}, []
+    for l in open(src):
+        l = l.strip()
+        if not l:
+            continue
+        try:
+            c = json.loads(l).get("c", 0)
+        except Exception:
+            continue
+        if c not in by:
+            by[c] = []
+            order.append(c)
+        by[c].append(l)
+    n = 0
+    with open(dst, "w") as f:
+        for c in order:
+            f.write(json.dumps({"c": c, "g": 0, "ev": "TraceReset", "l": "", "s": "", "a": 0, "b": 0, "d": 0, "e": 0}) + "\n")
+            for l in by[c]:
+                f.write(l + "\n")
+                n += 1
+    return n, len(order)
+
+
+def repo_tests_traced(ctx, only_conn, only_pool=None):
+    """Source 4 of DESIGN 2.2: the repository's own tests, built with -tags verif, write their hook events to a
+    file; the traces are validated like any other (the CCF lesson: existing tests trigger more than they assert)."""
+    raw = ctx.path("repotests.ndjson")
+    e = dict(os.environ)
+    e["VERIF_TRACE_FILE"] = raw
+    p = subprocess.run(["timeout", "900", "go", "test", "-tags", "verif", "-vet=off", "-count=1", "-timeout", "800s", "."], cwd="/repo",
+                       env=e, stdout=subprocess.PIPE, stderr=subprocess.STDOUT, text=True)
+    if not os.path.exists(raw) or os.path.getsize(raw) == 0:
+        raise Infra("repository tests produced no trace (exit %d): %s" % (p.returncode, p.stdout[-500:]))
+    ctx.extra["repo_tests_exit"] = p.returncode
+    per = ctx.path("repotests-perconn.ndjson")
+    n, conns = split_by_conn(raw, per)
+    ctx.extra["repo_test_events"] = n
+    ctx.extra["repo_test_connections"] = conns
+    ctx.impl_traces += conns
+    rej, _ = trace_validate(ctx, "TraceConn", "TraceConn.loose.cfg", per, name="TraceConn(repo tests)")
+    absorb_rejections(ctx, rej, "TraceConn", per, only=only_conn)
+    if only_pool is not None:
+        glob_ = ctx.path("repotests-global.ndjson")
+        with open(glob_, "w") as f:
+            f.write(json.dumps({"c": 0, "g": 0, "ev": "PoolReset", "l": "", "s": "", "a": 0, "b": 0, "d": 0, "e": 0}) + "\n")
+            f.write(open(raw).read())
+        rej, _ = trace_validate(ctx, "TracePool", "TracePool.cfg", glob_, name="TracePool(repo tests)")
+        absorb_rejections(ctx, rej, "TracePool", glob_, only=only_pool)
